@@ -254,6 +254,13 @@ def statted (fs : FS) : List Nat :=
     | some c => c
     | none => segVisible (fs.seg s))
 
+/-- the segment metadata records the query node holds after startup, in adoption order, each with the flushes the
+record was BUILT FROM (its time range, record count and column set are those of the SegStore after these flushes,
+see Model/CrashMeta.lean): the lines of segmeta.json, then the .sfm of every directory adopted through it
+(`readSegFullMetaFileAndPopulate`).  `adopted = metas.map (·.1)`, `counted = metas.flatMap (·.2)`. -/
+def metas (fs : FS) : List (Nat × List Nat) :=
+  fs.segmeta ++ (sfmAdopted fs).map (fun s => (s, (fs.seg s).sfm.blocks))
+
 /-- the suffix the restarted writer gives its first segment (`getSuffix`: missing file = 0) -/
 def nextSuffix (fs : FS) : Nat := fs.suffix.getD 0
 
